@@ -5,6 +5,8 @@ from .. import conds
 from .common import *
 from .adapters import *
 
+CRATES = (UT,)
+
 META = {
     "explanation": (
         "Static decision on MIR: R12.1 VectorObserver::into_parts of the three dynamic adapters (Head, Tail, Skip) hands the next stage a vector that is "
